@@ -51,6 +51,22 @@ class View:
         self.vec.items[self.lo:self.hi] = items
 
 
+_DP = {}
+
+
+def is_default_pen(facts, v):
+    """v is the default pen: the unresolved `Default::default()` term or the value the pen's own (derived) Default impl evaluates to."""
+    if isinstance(v, tuple) and v and v[0] == "ext" and v[1].endswith("default::Default::default"):
+        return True
+    k = id(facts)
+    if k not in _DP:
+        try:
+            _DP[k] = SE.Interp(facts).call_fn("<pen::Pen as core::default::Default>::default", [])
+        except Exception:
+            _DP[k] = None
+    return _DP[k] is not None and v == _DP[k]
+
+
 def deep(v):
     if isinstance(v, tuple) and v and v[0] == "obj":
         return ("obj", v[1], {k: deep(x) for k, x in v[2].items()})
@@ -124,6 +140,19 @@ class VecInterp(SE.Interp):
                     raise H.Unsupported("subtraction underflow (would panic)")
                 return v
             raise H.Unsupported("arithmetic on %r, %r" % (a, b))
+        if k == "ref" and e0.get("mut"):
+            inner = H.unwrap(e0["e"])
+            if H.is_k(inner, "index"):
+                base = self.ev(inner["base"], env)
+                idx = self.ev(inner["idx"], env)
+                if isinstance(base, (Vec, View)) and isinstance(idx, int) and not isinstance(idx, bool):
+                    n = len(base.items) if isinstance(base, Vec) else base.hi - base.lo
+                    if not 0 <= idx < n:
+                        raise H.Unsupported("index %d out of bounds (len %d; would panic)" % (idx, n))
+                    vec, off = (base, 0) if isinstance(base, Vec) else (base.vec, base.lo)
+                    el = vec.items[off + idx]
+                    if not (isinstance(el, tuple) and el[:1] == ("obj",)):
+                        return CellRef(vec, off + idx)          # `&mut v[i]` of a scalar element: assignments through it reach the vector
         if k == "unary" and e0["op"] == "*":
             v = self.ev(e0["e"], env)
             return v.get() if isinstance(v, CellRef) else v
@@ -1032,7 +1061,8 @@ def gc_semantics(w, S, T):
         if True:
             if True:
                 for (rows, size, lim, flag) in cases:
-                    lines = [("obj", S.line_ty, {S.cells_field: Vec([("sym", "l%d" % i)]), S.wrap_field: False}) for i in range(size + rows)]
+                    # every line but the last is soft-wrapped: neither the lines kept nor the lines handed out may lose (or gain) the mark
+                    lines = [("obj", S.line_ty, {S.cells_field: Vec([("sym", "l%d" % i)]), S.wrap_field: i < size + rows - 1}) for i in range(size + rows)]
                     flds = {}
                     for f in bf:
                         s = f["ty"]["s"]
@@ -1063,6 +1093,14 @@ def gc_semantics(w, S, T):
                         return False, "%s: lines after the gc %s, specification %s" % (desc, got, want)
                     if (got_ret or None) != (want_ret or None):
                         return False, "%s: the gc hands out %s, specification %s (the drained lines, oldest first)" % (desc, got_ret, want_ret)
+                    for l in list(flds[S.lines_field].items) + (list(ret[2][0].items) if got_ret else []):
+                        nm = l[2][S.cells_field].items[0][1]
+                        if bool(l[2][S.wrap_field]) != (nm != "l%d" % (size + rows - 1)):
+                            return False, "%s: line %s has its soft-wrap mark changed by the gc (lines are kept / handed out exactly as they were)" % (desc, nm)
+                    lim_after = flds[T.limit_field]
+                    lim_want = H.NONE_V if lim is None else H.some(("obj", T.limit_ty, {soft_n: lim[0], hard_n: lim[1]}))
+                    if lim_after != lim_want or flds[S.buf_cols] != 1 or flds[S.buf_rows] != rows:
+                        return False, "%s: the gc changes the configured limit / the geometry (%s)" % (desc, lim_after)
     return True, n
 
 
@@ -1082,7 +1120,7 @@ def ctor_semantics(ctx, w, S, rule):
                     if p == H.NONE_V:
                         dp = [c for c in it.local_calls if False]
                         first = lines[0][2][S.cells_field].items[0] if lines and lines[0][2][S.cells_field].items else None
-                        ok_pen = first is not None and isinstance(first, tuple) and first[0] == "v" and first[2][0] == 32 and "default" in repr(first[2][1]).lower()
+                        ok_pen = first is not None and isinstance(first, tuple) and first[0] == "v" and first[2][0] == 32 and is_default_pen(w.facts, first[2][1])
                         want_cell = first
                     else:
                         want_cell = it.call_fn("cell::Cell::blank", [pen])
